@@ -22,23 +22,47 @@ from tools import common, shroudrun
 LEVEL = "proof"
 MANIFEST = dict(
     category="proof",
-    text="Lean 4 theorems on a model of the plain C API assembly of wrapc.py: for ALL parameter lists and values of the modelled "
-         "argument kinds (native/bool/char/enum by value, native/bool/struct by value, pointer and reference, native `**`/`*&`, "
-         "char*, std::string by value and pointer/reference in/out/inout, class instances by value/pointer/reference) the C++ callee sees the documented conversion "
-         "of each C argument in declaration order, `this` is the object held by the capsule named by the first C parameter exactly "
-         "for instance methods and destructors, results (native, reference-as-pointer, enum, c_str, struct, class by "
-         "pointer/reference/value, constructor) are converted back as documented; the call_list rule over the 2x3 table; "
-         "enum/shadow/bool conversion round trips; lookupStmts returns the entry of a longest key matching the path (skipping only "
-         "empty/unknown parts), exact keys win, unrelated insertions change nothing; table theorems over the regenerated c_* "
-         "statement entries and typemap conversion pairs. Tied to the code by lookup and assembly correspondence on generated "
-         "libraries and the corpus; an implementation-only compile-and-run oracle compares library-received and caller-received "
-         "values with expectations computed from the declarations.",
+    text="Lean 4 theorems (38 audited, no size bound) on a model of the plain C API assembly of wrapc.py (language c++). "
+         "Call equivalence for ALL parameter lists and values of the modelled kinds: native/bool/struct by value, pointer, reference; "
+         "native `T **` / `T *&`; char by value, `char *`, `char **`, `void **`; enum by value and (after fix eb11a8b) by pointer/"
+         "reference; std::string by value and by pointer/reference with intent in/out/inout; class instances by value/pointer/"
+         "reference; callbacks (function pointers): the C++ callee sees the documented conversion of each C argument in declaration "
+         "order (arg_call_equivalence, args_call_equivalence by induction, call_equivalence_no_this / _method), output arguments "
+         "arrive in the caller's memory (arg_out_equivalence, string_inout_untouched), `this` is the object held by the capsule "
+         "named by the first C parameter exactly for instance methods and destructors with the method's constness (this_plan, "
+         "this_object, this_wrong_parameter_differs), results are converted back (result_equivalence: native, reference as pointer, "
+         "bool, enum as int, char*, c_str of a std::string, struct by value/pointer, class by pointer/reference/value, constructor), "
+         "the destructor wrapper deletes the held object and leaves {addr = NULL, idtor unchanged} in the handle "
+         "(dtor_clears_handle). The call_list rule over the 2x3 table {pointer, non-pointer parameter} x {scalar, pointer, no local} "
+         "(call_list_*). Conversion round trips for enum, bool and class handles (enum_round_trip, shadow_round_trip, "
+         "ctor_round_trip; wrong direction / double application are ill-typed). Statement lookup: a found entry belongs to a "
+         "longest key matching the path when only empty/unknown parts are skipped, the default only if nothing matches, exact keys "
+         "win, inserting an unrelated key changes no lookup (lookup_*). Table theorems over regenerated data: every reached plain "
+         "c_* entry assembles to the documented operation shape with {c_var}/{cxx_var}/{shadow_var}/{CXX_this} in the documented "
+         "positions (table_arg_shapes, table_res_shapes, table_class_entries), typemap conversion patterns are mutually inverse "
+         "pairs (table_typemap_pairs), the built tree holds entry i at key i (table_tree_entries). `_partial`: "
+         "plain_keys_reach_plain_entries_partial - kinds listed under not_modelled only get 'unreachable from plain keys'; "
+         "enum_indirect_old_code_ill_typed is a witness about the code before eb11a8b.",
     design="3 C02",
-    note="Trusted: Lean kernel; translator pattern table (tools/extract_cstmts.py: meaning of each template line); the abstract "
-         "semantics of C++ argument passing in Model/WrapC.lean (evalCall/resolve); each argument's operations are evaluated in "
-         "its own two-variable environment (parameter names are distinct). Not modelled (`_partial`): bufferify/CFI entries "
-         "(vectors, character buffers, contexts), `**`/`*&` of non-native types, function pointers, MPI_Comm, deref(scalar), "
-         "C_error_pattern, fstatements; the destructor's clearing of the capsule address; g++/gcc code generation.",
+    note="Tie: (T) tools/extract_cstmts.py regenerates Gen/CStmts.lean on every run (82 c_* entries, 37 template lines and the "
+         "typemap conversion patterns mapped to op codes by an explicit pattern table; an unmapped line raises). (D) real "
+         "lookup_fc_stmts vs lookupStmts over the whole key domain plus random paths; real generate_functions+Wrapc vs assembleC "
+         "(driver drv_wrapc) for every C-wrapped function of generated C++ libraries and the C++ corpus: matched statement names, "
+         "prototype, call list, `this` set-up, call/return shape; C names versus the documented naming rule computed from the "
+         "description (overload position, explicit function_suffix, default_arg_suffix, template_suffix, class-template instance "
+         "scope). Oracle (implementation only): instrumented C++ subject library + C driver calling only the generated headers' "
+         "functions under their documented names with boundary values, g++/gcc -fsanitize=address,undefined, trace compared with "
+         "expectations computed from the declarations: overload sets with explicit suffixes on any subset (free, method, ctor), "
+         "default arguments with default_arg_suffix lists, function templates with 1-3 type parameters and permuted instantiations, "
+         "class templates, const/static methods, ctor/dtor (handle NULL and idtor unchanged after dtor), class results by "
+         "pointer/reference/value, struct arguments on methods and in namespaces, enum by pointer/reference, callbacks, char **, "
+         "void **, customised C_prefix and C_name_template. Trusted / modelled-not-verified: Lean kernel; the translator's pattern "
+         "table (meaning of each template line); the abstract semantics of C++ argument passing in Model/WrapC.lean (evalCall, "
+         "resolve, convString = std::string's converting constructor); per-argument two-variable environments (distinct parameter "
+         "names); capsule idtor values are parameters (C06); the naming rule lives in the Python harness, not in Lean (C08); "
+         "g++/gcc code generation. Not modelled: bufferify/CFI entries (vectors, character buffers, contexts), MPI_Comm, "
+         "template-argument specialisations of statements, deref(scalar) results, enum pointer results, C_error_pattern, "
+         "fstatements overrides, language c libraries.",
     technique="Lean 4 proof (induction over parameter lists and paths, decide +kernel over regenerated tables) + differential "
               "correspondence + compile-and-run oracle with sanitizers",
 )
@@ -59,7 +83,10 @@ THEOREMS = {
         "Shroud.WrapC.arg_call_equivalence",
         "Shroud.WrapC.string_by_value",
         "Shroud.WrapC.pointer_to_pointer",
-        "Shroud.WrapC.enum_indirect_ill_typed",
+        "Shroud.WrapC.enum_indirect",
+        "Shroud.WrapC.enum_indirect_old_code_ill_typed",
+        "Shroud.WrapC.pass_through_kinds",
+        "Shroud.WrapC.dtor_clears_handle",
         "Shroud.WrapC.args_call_equivalence",
         "Shroud.WrapC.arg_out_equivalence",
         "Shroud.WrapC.string_inout_untouched",
@@ -84,9 +111,10 @@ THEOREMS = {
 }
 
 UNMODELLED = ["entries with a buf/cfi/cdesc part (bufferify / CFI API: std::vector, character buffers, array contexts)",
-              "`**` / `*&` of non-native types (char **, void **)", "function-pointer (callback) arguments", "MPI_Comm",
-              "template-argument specialisations", "deref(scalar) results", "C_error_pattern", "fstatements overrides",
-              "language c libraries (no wrapper when none is needed)", "the destructor's clearing of the capsule address"]
+              "MPI_Comm", "template-argument specialisations of statement keys", "deref(scalar) results",
+              "enum returned by pointer/reference", "C_error_pattern", "fstatements overrides",
+              "language c libraries (no wrapper when none is needed)",
+              "the C naming rule (overload numbers, suffix lists, template suffixes) is checked by the harness, not proved in Lean"]
 
 
 # ---------------------------------------------------------------- model requests
@@ -107,7 +135,22 @@ def conv_code(text, table, xc):
         return 9
 
 
-def arg_desc(arg, it, xc, suffix=None, is_result_ast=False, cxx_ast=None):
+def enum_names(lib):
+    """typemap names of the library's enums (what wrapc.find_enum_typemaps records)"""
+    out = set()
+
+    def walk(node):
+        for e in node.enums:
+            out.add(e.typemap.name)
+        for c in node.classes:
+            walk(c)
+        for n in getattr(node, "namespaces", []):
+            walk(n)
+    walk(lib)
+    return out
+
+
+def arg_desc(arg, it, xc, suffix=None, is_result_ast=False, cxx_ast=None, enums=frozenset()):
     from shroud import statements
     tm, specialize = statements.lookup_c_statements(arg)
     attrs, meta = arg.attrs, arg.metaattrs
@@ -135,7 +178,8 @@ def arg_desc(arg, it, xc, suffix=None, is_result_ast=False, cxx_ast=None):
         isres = bool(meta["is_result"])
     return ":".join(str(x) for x in [
         it(arg.typemap.sgroup), it(spointer), intent, it(sfx), ex,
-        int(bool(arg.is_pointer())), int(bool(arg.is_reference())), int(bool(attrs["value"])), cv, int(isres)])
+        int(bool(arg.is_pointer())), int(bool(arg.is_reference())), int(bool(attrs["value"])), cv, int(isres),
+        int((not is_result_ast) and tm.name in enums)])
 
 
 def cxx_node_of(lib, node):
@@ -150,8 +194,9 @@ def func_request(lib, cls, node, it, xc):
     cxx_ast = cxx_node_of(lib, node).ast
     flags = [cls is not None, bool(cxx_ast.is_ctor()), bool(cxx_ast.is_dtor()), "static" in ast.storage,
              bool(ast.func_const), cxx_ast.get_subprogram() == "function", ast.metaattrs["deref"] == "scalar"]
+    enums = enum_names(lib)
     res = arg_desc(ast, it, xc, suffix=node.generated_suffix, is_result_ast=True)
-    args = [arg_desc(a, it, xc, suffix=node.generated_suffix, cxx_ast=cxx_ast) for a in ast.params]
+    args = [arg_desc(a, it, xc, suffix=node.generated_suffix, cxx_ast=cxx_ast, enums=enums) for a in ast.params]
     return "asm %s %s %s" % ("".join("1" if f else "0" for f in flags), res, " ".join(args))
 
 
@@ -349,8 +394,15 @@ def expected_c_name(cls, node):
         return None
 
 
-TM_NAME = {"bool": "bool", "char": "char", "cstr": "char", "string": "std::string", "enum": "Color", "struct": "Pt"}
+TM_NAME = {"bool": "bool", "char": "char", "cstr": "char", "string": "std::string", "enum": "Color", "struct": "Pt",
+           "fnptr": "int", "cstrarr": "char", "voidarr": "void"}
 MODE = {"val": "scalar", "ptr": "*", "ref": "&", "pp": "**", "pr": "*&"}
+
+
+def sig_of(p, tm):
+    if p.fam in ("cstrarr", "voidarr"):
+        return (TM_NAME[p.fam], "**")
+    return (tm.get(p.t, p.t) if p.fam in ("native", "class") else TM_NAME[p.fam], MODE[p.mode])
 
 
 def documented_names(spec):
@@ -360,10 +412,18 @@ def documented_names(spec):
         for cname, nd, tt in spec.c_names(f):
             ps = list(f.params) + [p for p, _ in f.defaults[:nd]]
             tm = spec.tmap(f, tt)
-            sig = tuple((tm.get(p.t, p.t) if p.fam in ("native", "class") else TM_NAME[p.fam], MODE[p.mode]) for p in ps)
+            sig = tuple(sig_of(p, tm) for p in ps)
             if f.template:   # instantiations may differ in the result type only
                 sig += (("result", tm.get(f.ret[1], f.ret[1]) if len(f.ret) > 1 else "void"),)
             out[(f.cls or "", f.kind if f.kind != "func" else f.name, sig)] = cname
+    for cname_cls, t, fs in spec.tclass_instances():
+        for f in fs:
+            sig = tuple(sig_of(p, {"T": t}) for p in f.params)
+            if any(p.t == "T" for p in f.params) or f.ret[0] == "tparam":
+                # members that mention T are instantiated per class instance; keyed with their result type
+                res = cname_cls if f.kind == "ctor" else ({"T": t}.get(f.ret[1], f.ret[1]) if len(f.ret) > 1 else "void")
+                sig += (("result", res),)
+            out[(cname_cls, f.kind if f.kind != "func" else f.name, sig)] = spec.c_names(f)[0][0]
     return out
 
 
@@ -373,7 +433,7 @@ def node_key(cls, node):
     sig = tuple((a.typemap.name, a.get_indirect_stmt()) for a in ast.params)
     if node._generated == "cxx_template":
         sig += (("result", ast.typemap.name),)
-    return (cls.name if cls is not None else "", kind, sig)
+    return (cls.fmtdict.cxx_class if cls is not None else "", kind, sig)
 
 
 def check_documented_names(ctx, spec, lib, shapes):
@@ -580,6 +640,7 @@ def run(ctx):
         "parameter names of one function are distinct, so each argument's wrapper operations touch only its own c_var/cxx_var",
         "the C caller passes values of the prototype's types (wellTyped); capsules passed for class arguments hold live objects",
         "argument kinds listed under not_modelled are outside the proved statement (`_partial`)",
+        "an enum's underlying type has the size of int (the C API declares enums as int; pointers to enums are converted as pointers)",
     ]
     run_tie(ctx, ok, thorough, xinfo)
     from tools import c02_oracle
